@@ -126,10 +126,13 @@ func (w *World) extraEnabled() []core.WCmd {
 			add(p.TamperW, core.Cmd{A: "tamper", I: st.idx, S: kinds[r.Intn(len(kinds))], Op: k, N: int64(r.Intn(1 << 20))})
 			// the most recently written data tile (the right edge recovery
 			// reads), re-encoded with one leaf changed: well-formed, wrong content
+			// (by coordinate, not by write order: tiles of one round are uploaded by
+			// parallel goroutines)
 			var newest string
+			var newestC ref.TileCoord
 			for _, kk := range keys {
-				if strings.HasPrefix(kk, "tile/data/") && (newest == "" || st.objs[kk].Ver > st.objs[newest].Ver) {
-					newest = kk
+				if c, ok := ref.ParsePath(kk); ok && c.Level == -1 && (newest == "" || c.N > newestC.N || (c.N == newestC.N && c.W > newestC.W)) {
+					newest, newestC = kk, c
 				}
 			}
 			if newest != "" {
